@@ -101,6 +101,71 @@ class EffectDomain(DefaultDomain):
             return ("tuple",) + tuple(EffectDomain._abs(y) for y in x)
         return ("const", x)
 
+    def _sort_elements(self, els):
+        """Sort an exact sequence the way list.sort() would: ("ok", sorted) | ("exc", TypeError) | None (not decidable).
+        Constants sort by value; (key, object) pairs sort by their constant key -- a None among strings, or two
+        equal keys followed by objects that cannot be ordered, raise TypeError like the real comparison."""
+        pys = [self._py(x) for x in els]
+        if all(ok_ for ok_, _ in pys):
+            try:
+                return ("ok", tuple(self._abs(v) for v in sorted(p_ for _, p_ in pys)))
+            except TypeError:
+                return ("exc", ("exc", "TypeError"))
+        if all(isinstance(x, tuple) and x[:1] == ("tuple",) and len(x) >= 2 for x in els):
+            keys = [self._py(x[1]) for x in els]
+            if all(ok_ for ok_, _ in keys):
+                ks = [k_ for _, k_ in keys]
+                try:
+                    order = sorted(range(len(ks)), key=lambda i: ks[i])
+                except TypeError:
+                    return ("exc", ("exc", "TypeError"))
+                if len(set(map(repr, ks))) != len(ks):
+                    return ("exc", ("exc", "TypeError"))   # equal keys: the objects themselves would be compared
+                return ("ok", tuple(els[i] for i in order))
+        return None
+
+    def comprehension(self, interp, comp, st, fr):
+        """{k: v for target in <exact sequence> if conds} -> an exact dict"""
+        if not isinstance(comp, ast.DictComp) or len(comp.generators) != 1 or comp.generators[0].is_async:
+            return None
+        gen = comp.generators[0]
+        out = []
+        for r in interp._forced(interp.eval(gen.iter, st, fr), fr):
+            if r.kind == "exc":
+                out.append(r)
+                continue
+            els = interp._exact_elements(r.value)
+            if els is None:
+                return None
+            cur = [(r.state, ())]
+            for elv in els:
+                nxt = []
+                for c, acc in cur:
+                    states = [interp.assign(gen.target, elv, c, fr)]
+                    for cond in gen.ifs:
+                        keep = []
+                        for s3 in states:
+                            for br, s4 in interp.branch(cond, s3, fr):
+                                if br == "exc":
+                                    out.append(s4)
+                                elif br:
+                                    keep.append(s4)
+                                else:
+                                    nxt.append((s4, acc))
+                        states = keep
+                    for s3 in states:
+                        for r2 in interp.eval_list([comp.key, comp.value], s3, fr):
+                            if r2.kind == "exc":
+                                out.append(r2)
+                                continue
+                            ok_, k_ = self._dkey(r2.value[0])
+                            if not ok_:
+                                return None
+                            nxt.append((r2.state, tuple(x for x in acc if x[0] != k_) + ((k_, r2.value[1]),)))
+                cur = nxt
+            out.extend(val(("kwdict", acc), c) for c, acc in cur)
+        return out
+
     def augassign(self, interp, stmt, value, st, fr):
         """x op= v on a local or self attribute whose current value is known: x = x op v"""
         key = interp._key_of(stmt.target, fr)
@@ -136,6 +201,11 @@ class EffectDomain(DefaultDomain):
                     return self._abs(pl * pr)
             except TypeError:
                 pass
+        if isinstance(node.op, ast.Mod) and okl and okr and isinstance(pl, str):
+            try:
+                return self._abs(pl % pr)
+            except (TypeError, ValueError):
+                pass
         if isinstance(left, tuple) and isinstance(right, tuple) and left[:1] == ("set",) and right[:1] == ("set",):
             op = {ast.BitOr: "union", ast.Sub: "minus", ast.BitAnd: "meet"}.get(type(node.op))
             if op:
@@ -164,6 +234,9 @@ class EffectDomain(DefaultDomain):
             if ok:
                 hit = k in dict(right[1])
                 return "T" if hit == isinstance(op, ast.In) else "F"
+        if isinstance(op, (ast.Is, ast.IsNot)) and all(isinstance(v, tuple) and v and v[0] in self.IDENTITY_TAGS for v in (left, right)):
+            # distinct symbolic objects are distinct objects
+            return "T" if (left == right) == isinstance(op, ast.Is) else "F"
         if isinstance(op, (ast.In, ast.NotIn)) and isinstance(right, tuple) and right[:1] == ("tuple",):
             # membership in an exact sequence: decided when every element is known to be (un)equal to the candidate
             verdicts = []
@@ -426,6 +499,10 @@ class EffectDomain(DefaultDomain):
                 return st.get("self." + ".".join(chain[1:]))   # mutable state kept under a deeper path of self wins over the environment
             if d in self.attrs:
                 return self.attrs[d]
+            if len(chain) == 1 and not st.has(fr.local(chain[0])):
+                got = self._module_constant(chain[0], fr)
+                if got is not None:
+                    return got
             # attribute of a local / attribute that holds a wrapped object
             if len(chain) >= 2:
                 base = ".".join(chain[:-1])
@@ -435,6 +512,34 @@ class EffectDomain(DefaultDomain):
                 if isinstance(v, tuple) and v[:1] == ("wobj",):
                     a = self.attrs.get(f"{v[1]}.{chain[-1]}")
                     return a if a is not None else ("bound", v[1], chain[-1])
+        return None
+
+    @staticmethod
+    def _module_constant(name, fr):
+        """A module-level name bound exactly once to a literal or to a fresh `object()` sentinel."""
+        mod = getattr(fr.func, "_module", None)
+        tree = getattr(mod, "tree", None)
+        if tree is None:
+            return None
+        found = None
+        for n in ast.walk(tree):
+            if isinstance(n, (ast.Assign, ast.AnnAssign, ast.AugAssign)):
+                targets = n.targets if isinstance(n, ast.Assign) else [n.target]
+                for t in targets:
+                    for x in ast.walk(t):
+                        if isinstance(x, ast.Name) and x.id == name:
+                            if found is not None or getattr(n, "_func", None) is not None or isinstance(n, ast.AugAssign) or not isinstance(t, ast.Name):
+                                return None
+                            found = n
+            elif isinstance(n, (ast.Global,)) and name in n.names:
+                return None
+        if found is None or found.value is None:
+            return None
+        v = found.value
+        if isinstance(v, ast.Call) and dotted(v.func) == "object" and not v.args and not v.keywords:
+            return ("sym", f"<module sentinel {name}>")
+        if isinstance(v, ast.Constant) and not isinstance(v.value, (float, complex)) and v.value is not Ellipsis:
+            return EffectDomain._abs(v.value)
         return None
 
     def with_enter(self, interp, item, value, st, fr):
@@ -802,6 +907,80 @@ class EffectDomain(DefaultDomain):
             for r in interp.eval(call.args[0], st, fr):
                 out.append(r if r.kind == "exc" else val({"T": TRUE, "F": FALSE}.get(self.truth(r.value), ("bool",)), r.state))
             return out
+        if d in ("Counter", "collections.Counter") and len(call.args) == 1 and not call.keywords:
+            out = []
+            known = True
+            for r in interp._forced(interp.eval(call.args[0], st, fr), fr):
+                if r.kind == "exc":
+                    out.append(r)
+                    continue
+                els = interp._exact_elements(r.value)
+                keys = [self._dkey(x) for x in els] if els is not None else None
+                if keys is None or not all(ok_ for ok_, _ in keys):
+                    known = False
+                    break
+                counts = {}
+                for _, k_ in keys:
+                    counts[k_] = counts.get(k_, 0) + 1
+                out.append(val(("kwdict", tuple((k_, ("const", n_)) for k_, n_ in counts.items())), r.state))
+            if known:
+                return out
+        if d == "iter" and len(call.args) == 1 and not call.keywords:
+            out = []
+            known = True
+            for r in interp._forced(interp.eval(call.args[0], st, fr), fr):
+                if r.kind == "exc":
+                    out.append(r)
+                elif isinstance(r.value, tuple) and r.value[:1] == ("tuple",):
+                    out.append(val(("iter", r.value), r.state))
+                elif isinstance(r.value, tuple) and r.value[:1] == ("iter",):
+                    out.append(r)
+                else:
+                    known = False
+            if known and out:
+                return out
+        if d == "next" and 1 <= len(call.args) <= 2 and not call.keywords:
+            out = []
+            known = True
+            for r in interp.eval_list(list(call.args), st, fr):
+                if r.kind == "exc":
+                    out.append(r)
+                    continue
+                els = interp._exact_elements(r.value[0])
+                if els is None:
+                    known = False
+                    break
+                if els:
+                    out.append(val(els[0], r.state))
+                elif len(r.value) > 1:
+                    out.append(val(r.value[1], r.state))
+                else:
+                    out.append(exc(("exc", "StopIteration"), r.state))
+            if known:
+                return out
+        f_sort = call.func
+        if isinstance(f_sort, ast.Attribute) and f_sort.attr == "sort" and not call.args and not call.keywords and isinstance(f_sort.value, (ast.Name, ast.Attribute)):
+            key = interp._key_of(f_sort.value, fr)
+            cur = st.get(key, None) if key is not None else None
+            if isinstance(cur, tuple) and cur[:1] == ("tuple",):
+                got = self._sort_elements(cur[1:])
+                if got is not None:
+                    return [exc(got[1], st)] if got[0] == "exc" else [val(NONE, st.set(key, ("tuple",) + got[1]))]
+        if d == "sorted" and len(call.args) == 1 and not call.keywords:
+            out = []
+            known = True
+            for r in interp._forced(interp.eval(call.args[0], st, fr), fr):
+                if r.kind == "exc":
+                    out.append(r)
+                    continue
+                els = interp._exact_elements(r.value)
+                got = self._sort_elements(tuple(els)) if els is not None else None
+                if got is None:
+                    known = False
+                    break
+                out.append(exc(got[1], r.state) if got[0] == "exc" else val(("tuple",) + got[1], r.state))
+            if known:
+                return out
         if d in ("sorted", "reversed") and len(call.args) == 1 and not call.keywords:
             out = []
             for r in interp.eval(call.args[0], st, fr):
@@ -855,8 +1034,20 @@ class EffectDomain(DefaultDomain):
                 elif r.value == NONE:
                     out.append(exc(("exc", "AttributeError"), r.state))
                 else:
+                    okr_, pr_ = self._py(r.value)
                     for r2 in interp.eval_list([a.value if isinstance(a, ast.Starred) else a for a in call.args] + [k.value for k in call.keywords], r.state, fr):
-                        out.append(r2 if r2.kind == "exc" else val(TOP, r2.state))
+                        if r2.kind == "exc":
+                            out.append(r2)
+                            continue
+                        pys = [self._py(v) for v in r2.value]
+                        if okr_ and isinstance(pr_, (str, bytes)) and call.func.attr in self.PURE_STR_METHODS and not call.keywords and all(ok_ for ok_, _ in pys):
+                            # a pure string method on a constant produced by another call: fold it
+                            try:
+                                out.append(val(self._abs(getattr(pr_, call.func.attr)(*[x for _, x in pys])), r2.state))
+                            except Exception as e_:
+                                out.append(exc(("exc", type(e_).__name__), r2.state))
+                        else:
+                            out.append(val(TOP, r2.state))
             return out
         if isinstance(call.func, ast.Attribute) and isinstance(call.func.value, ast.Name) and st.get(fr.local(call.func.value.id), None) == NONE:
             return [exc(("exc", "AttributeError"), st)]   # None.<method>(...)
